@@ -25,7 +25,7 @@ pub fn prop() -> Prop {
          thread in a child process: ast::Document::parse, validate_standalone_executable, to_schema_validate, \
          Schema::parse, Schema::builder (adopt_orphan_extensions, ignore_builtin_redefinitions), Schema::validate, \
          ExecutableDocument::parse + validate against the text's own schema when valid (else a fixed schema), \
-         parse_mixed_validate, to_string of every result, full-introspection partial_execute on valid schemas, and for \
+         parse_mixed_validate, to_string of every result, full-introspection partial_execute on valid schemas, introspection::check_max_depth and partial_execute on every document that validates, and for \
          every diagnostic Display, Debug with forced ANSI colours, to_report, to_json + serde, line_column_range: all \
          return (no panic, no signal; in lists of more than 160 diagnostics the renderings cover a spread sample of ~64, \
          to_json and line_column_range cover all). Every DiagnosticList is sorted by Option<(FileId, offset)> (unlocated first), \
@@ -453,6 +453,25 @@ pub fn run_all(case: &Case) -> Obs {
                 Ok(v) => {
                     entry!(obs, "Valid<ExecutableDocument>::to_string", {
                         use_executable(&v);
+                    });
+                    // everything that walks a VALID document relies on what validation established
+                    // (no fragment cycle, bounded nesting): the introspection depth check and, for
+                    // operations it lets through, partial execution of the introspection parts
+                    entry!(obs, "introspection::check_max_depth(valid document)", {
+                        let implementers = against.implementers_map();
+                        let ops: Vec<_> = v.operations.anonymous.iter().chain(v.operations.named.values()).take(4).collect();
+                        for op in ops {
+                            crate::runner::phase("introspection::check_max_depth");
+                            let ok = apollo_compiler::introspection::check_max_depth(&v, op).is_ok();
+                            crate::runner::phase("");
+                            if ok {
+                                if let Ok(vars) = apollo_compiler::request::coerce_variable_values(against, op, &apollo_compiler::response::JsonMap::default()) {
+                                    crate::runner::phase("introspection::partial_execute");
+                                    let _ = apollo_compiler::introspection::partial_execute(against, &implementers, &v, op, &vars);
+                                    crate::runner::phase("");
+                                }
+                            }
+                        }
                     });
                 }
                 Err(e) => {
